@@ -21,12 +21,20 @@ func obProps(o *Oblig) []string {
 	case "SAFE", "TERM":
 		return append([]string{"C01"}, o.tags...)
 	case "FRAME":
-		return []string{"C04", "C05"}
+		// no write to pre-existing memory: nothing is carried from one query to the next (C03), nothing
+		// the caller supplied changes (C04), concurrent queries only read shared state (C05)
+		return []string{"C03", "C04", "C05"}
 	case "COPY":
 		return []string{"C17"}
 	case "NONDET":
 		return append([]string{"C03"}, o.tags...)
-	case "PRE", "POST", "LOOP", "INV", "LEMMA":
+	case "PRE", "LOOP":
+		// preconditions and invariants without a property tag exist for panic freedom
+		if len(o.tags) == 0 && o.houdini == 0 {
+			return []string{"C01"}
+		}
+		return o.tags
+	case "POST", "INV", "LEMMA":
 		return o.tags
 	}
 	return nil
@@ -388,22 +396,20 @@ func (r *checkRun) decide(noEvidence bool, evidenceOut string) int {
 	return 0
 }
 
-// fullyProvedAtBase: on the pinned tree the function had no unproved obligation of this family.
+// fullyProvedAtBase: the function existed on the pinned tree and had no unproved obligation of this family.
 func (r *checkRun) fullyProvedAtBase(o *Oblig, base Baseline) bool {
 	pfx := o.Fn + "#" + o.Family + ":"
-	any := false
 	for _, n := range base.Unproved {
 		if strings.HasPrefix(n, pfx) {
 			return false
 		}
 	}
-	for _, n := range base.Claimed {
-		if strings.HasPrefix(n, pfx) {
-			any = true
-			break
+	for _, f := range base.Functions {
+		if f == o.Fn {
+			return true
 		}
 	}
-	return any
+	return false
 }
 
 type vacReport struct {
